@@ -181,6 +181,10 @@ def run_case(case):
 
 
 def count_occ(text, snip):
+    """occurrences of a user-controlled expression; an inner snapshot(...) is managed on its own (its argument may be repaired
+    by its own comparison, possibly to the text of another generated snippet), so inner snapshots are counted as such"""
+    if snip.startswith("snapshot("):
+        return len(re.findall(re.escape("snapshot(#)"), mask_inner(text)))
     return len(re.findall(re.escape(snip), text))
 
 
